@@ -316,6 +316,13 @@ func (sc *SpecCtx) eval(x *Sx) specVal {
 				}
 			}
 		}
+		for _, p := range t.P.prog.AllPackages() {
+			if i > 0 && p.Pkg.Name() == name[:i] {
+				if g, ok := p.Members[name[i+1:]].(*ssa.Global); ok && t.P.libSentinel(g) {
+					return specVal{t.libSentinelTerm(g), g.Type().(*types.Pointer).Elem()}
+				}
+			}
+		}
 		t.errorf("spec: no immutable global %s", name)
 		return specVal{"vnil", nil}
 	case "cast":
